@@ -160,6 +160,13 @@ def run_c10(ctx, C):
     codec_common(ctx, C, [GEN_CIPHER], [], mcs=[MC_CIPHER, MC_CIPHER_KNOB], traces=("Trace_Cipher",))
 
 
+GEN_TRANSFORMS = dict(module="Gen_Transforms", name="transforms", trace=False, timeout=3000)
+
+
+def run_c11(ctx, C):
+    codec_common(ctx, C, [GEN_TRANSFORMS], [], traces=())
+
+
 def run_c06(ctx, C):
     codec_common(ctx, C, [GEN_SK], [], mcs=[MC_SK], traces=("Trace_SK",))
 
@@ -169,6 +176,12 @@ def run_c04(ctx, C):
 
 
 PLANS = {
+    "C11": dict(level="model_checking", run=run_c11, assumptions=ASSUME_CODEC, exhaustive=True,
+                rule="Transforms.tla: registry and mapping as finite functions (bijection on the advertised set checked by TLC); every advertised "
+                     "algorithm -> transform (lengths from the RFC tables) -> wire -> algorithm; transform identifiers (quick: 0..40 and boundary / "
+                     "one-bit-away values; thorough: all 65536) x attribute classes (absent, key length in a boundary set, foreign attribute types "
+                     "incl. 14+128k, TLV-encoded) x 7 decode functions, directly and after a wire round trip; all 54 IKE and 72 Child single-choice "
+                     "proposals through NewIKESAKey / NewChildSAKeyByProposal and back through ToProposal, with unsupported / missing elements"),
     "C10": dict(level="model_checking", run=run_c10, assumptions=ASSUME_SK,
                 rule="CipherObj.tla model-checked (FreshIV, SizeLaw, KeySizeExact, NoResultOnFailure; knob-off sanity run); 3 key sizes x plaintext lengths "
                      "0..64 and {255,256,257,4095,4096} under deterministic and system sources (inverse, length law as a set of legal lengths, IV made of "
